@@ -10,6 +10,11 @@ CHECKS = {
          "Breadth-first search over all histories (alphabet ~110 operations: pushes with good/bad descriptors, 9 manifest kinds tagged/untagged, mounts, deletes, one chunked upload session with write/resume/commit/cancel, invalid names) to depth 2 (quick) / 4 with caps (thorough) from the empty registry and from 6 seeded non-initial states, in both configurations, plus a closed mini-universe explored to FIXPOINT (every reachable state, any history length). A state is the canonical reflective dump of the real registry object graph plus upload handles; every transition is a real call compared with a three-valued reference model, then ~260 read/resolve/list queries are compared with the model. All traces are implementation traces.",
          "Bounded universe (2+1 repositories, 3 blobs, 9 manifests, 2 tags, <=3-byte uploads). Codes compared only where interface.go documents them; content-free repositories may be unknown or empty; silent cases are three-valued.",
          "DESIGN.md 3 C02"),
+ "C03": ("model_checking", "E2-state",
+         "lock-step differential BFS over operation histories: the real ocimem directly vs the real client->server(->client->server)->ocimem stack, plus a recording backend and a loopback binding run",
+         "Every history (alphabet ~90 operations: pushes with good/bad descriptors, 6-7 manifest kinds incl. one above the client's 128 KiB threshold, tagged/untagged, mounts, deletes, a chunked upload with write/resume/commit/cancel) over repository and tag names that contain the routing words (a/blobs/uploads, x/tags/list, manifests, b/referrers; tags list, blobs, uploads) is applied to ocimem directly and to the stack, under server option sets {none, OmitDigest, OmitLink, MaxListPageSize, DisableSinglePostUpload, all}, client page sizes {1,2,1000}, ocidebug on both sides, two proxy hops, and a tiny registry chunk minimum; depth 1-2 from empty and 3 seeded states (quick), 2-3 (thorough). After every transition: same success/failure, same OCI code (status class for HEAD-based resolves), same descriptor; a full read sweep through the stack equals the direct sweep; readers held open simultaneously return the same bytes; the two backends are observably equal. Recording backend: 17 methods x names x sha256/384/512 digests x media types (incl. parameters) and x every standard error: the backend sees exactly the caller's arguments. The in-process transport is bound to net/http by replaying histories over a real loopback server with identical logs required.",
+         "Deterministic upload IDs via a harness shim. Excluded/tolerated (documented in DESIGN.md 5): mis-positioned resumes (C04), retry of a failed Commit (protocol limitation), PushBlob with a wrong size (cannot be put on the wire), MountBlob size 0, inverted ranges. Known finding: empty range over HTTP.",
+         "DESIGN.md 3 C03"),
  "C04": ("model_checking", "E2-state",
          "exhaustive enumeration of chunked-writer scripts executed on the real stacks (direct, HTTP one and two hops, unified) with a concatenation oracle",
          "Every composition of an n-byte content (n <= 5 quick / 6 thorough, incl. zero-length writes, a NUL byte) into Write calls x chunk-size hints {-1,0,1,2,3,5,9} x EVERY subset of write boundaries closed-and-resumed x resume modes {explicit Size(), -1, alternating} x one bad resume (offset +1, -1, 0) tried first at each boundary (must be refused with RANGE_INVALID/416, a second attempt on the same writer too, and the upload must be unaltered) x right / wrong commit digest, on ocimem, client->server->ocimem with registry minimum chunk 1,2,3 (tiny-data flush logic) and the real 8192, two proxy hops, ociunify and ociunify over HTTP; plus write sizes {0,1,8191,8192,8193,16384} around the real minimum. Oracle: every accepted Write returns (len,nil), Size() equals bytes accepted, GetBlob after Commit returns exactly the concatenation, wrong digest stores nothing under either digest.",
